@@ -892,6 +892,9 @@ class Engine:
             return mk_V(T_getitem(bt, kv))
         if base.k == "obj":
             return mk_V(T_getitem(base.t, self.as_V(idx)))
+        if base.k == "py" and isinstance(base.t, ExtRef) and base.t.recv is not None:
+            # attribute of a dynamic value used as a container (dataset.coords[key]): opaque attribute value, opaque item
+            return mk_V(T_getitem(self.as_V(base), self.as_V(idx)))
         raise Unsupported(f"subscript of {base.k}")
 
     def slice(self, base, sl, fr):
@@ -1167,6 +1170,12 @@ class Engine:
             base = self.ev(node.value, fr)
             if base.k == "obj":
                 self.heap_set(fr.st, base, node.attr, val, fr)
+                return
+            if base.k == "V" and node.attr in getattr(self.reg, "opaque_mutable_attrs", ()):
+                # in-place change of a library object whose contents are not modelled (e.g. dataset.coords[name] = ...):
+                # recorded as an event on that object; the object reference itself is unchanged
+                from .state import Event
+                fr.st.events.append(Event("call", f".{node.attr}.__setitem__", [base, val], {}, getattr(node, "lineno", None)))
                 return
         if isinstance(node, ast.Subscript):
             # d[k].mutate()  ->  d[k] = mutated
